@@ -374,7 +374,7 @@ func finish(an *analysis) *outTable {
 			u.roots["init"] = true
 			an.classes["init"] = true
 		}
-		if !called[u] && !u.hasCtx && !u.isInit {
+		if (!called[u] || u.exported) && !u.hasCtx && !u.isInit { // exported: other packages call it too, from their goroutines
 			c := "ext:" + u.name
 			u.roots[c] = true
 			an.classes[c] = false
@@ -494,6 +494,30 @@ func finish(an *analysis) *outTable {
 		t.Classes = append(t.Classes, outClass{Name: c, Single: an.classes[c]})
 	}
 	sort.Slice(t.Classes, func(i, j int) bool { return t.Classes[i].Name < t.Classes[j].Name })
+	if namePrefix != "" {
+		// second package: names are qualified so that they cannot collide with package server's
+		ren := func(m map[string]bool) map[string]bool {
+			o := map[string]bool{}
+			for k := range m {
+				o[qual(k)] = true
+			}
+			return o
+		}
+		for i := range t.Entries {
+			e := &t.Entries[i]
+			e.Loc, e.Fn = qual(e.Loc), qual(e.Fn)
+			for j := range e.Locks {
+				e.Locks[j].Name = qual(e.Locks[j].Name)
+			}
+			for j := range e.Before {
+				e.Before[j] = qual(e.Before[j])
+			}
+			for j := range e.After {
+				e.After[j] = qual(e.After[j])
+			}
+		}
+		locs, mus, fns, sigs = ren(locs), ren(mus), ren(fns), ren(sigs)
+	}
 	t.Locs, t.Mutexes, t.Funcs, t.Signals = keys(locs), keys(mus), keys(fns), keys(sigs)
 	if t.Signals == nil {
 		t.Signals = []string{}
@@ -509,6 +533,13 @@ func finish(an *analysis) *outTable {
 	sort.Strings(t.Coarse)
 	_ = token.NoPos
 	return t
+}
+
+func qual(n string) string {
+	if strings.HasPrefix(n, "var ") {
+		return "var " + namePrefix + n[4:]
+	}
+	return namePrefix + n
 }
 
 func usable(an *analysis, sig string) bool {
